@@ -267,6 +267,7 @@ func onStall(stacks string) bool {
 func worker(t *testing.T, c core.Cfg) {
 	start := time.Now()
 	faulty := c.Property == "C06"
+	waves := c.Mode == "race" // -race build: everything parked is released at once
 	part := &core.Partial{Worker: c.Worker, Counters: core.Counters{}}
 	stallState.mu.Lock()
 	stallState.part, stallState.cfg = part, c
@@ -280,6 +281,13 @@ func worker(t *testing.T, c core.Cfg) {
 	distinct := map[uint64]bool{}
 	inter := map[uint64]bool{}
 	maxViol := 6
+	finished := false
+	defer func() {
+		if !finished { // ended by the testing package after a race report: keep what was gathered
+			part.Counters.Inc("worker_ended_early_by_testing_package")
+			finishWorker(c, part, distinct, inter, start)
+		}
+	}()
 	selfcheck(t, c, part)
 	maxCases := int(core.EnvInt("VERIF_MAX_CASES", 0)) // determinism self-test: a fixed set of graphs
 	wantDigests := os.Getenv("VERIF_DIGESTS") != ""
@@ -319,7 +327,9 @@ func worker(t *testing.T, c core.Cfg) {
 			for si := 0; si < nsched && (si < 2 || maxCases > 0 || time.Now().Before(deadline)); si++ {
 				var pk core.Picker
 				pname := "baseline-first"
-				if si == 0 {
+				if waves {
+					pk, pname = core.Waves{}, "waves"
+				} else if si == 0 {
 					pk = core.First{}
 				} else {
 					pk, pname = choosePicker(core.Derive(gseed, "sched", fmt.Sprint(si)), w)
@@ -344,7 +354,7 @@ func worker(t *testing.T, c core.Cfg) {
 					part.Counters.Inc("outcome_error")
 				}
 				// determinism twin: every 16th run is re-executed from its own trace
-				if part.Evaluations%16 == 1 {
+				if part.Evaluations%16 == 1 && !waves {
 					tw := Execute(t, w, &core.Trace{Keys: o.Picks}, maxSteps(w))
 					if tw.Sched.Diverged != "" {
 						part.HarnessErr = fmt.Sprintf("twin of graph %d schedule %d diverged: %s", g, si, tw.Sched.Diverged)
@@ -372,6 +382,13 @@ func worker(t *testing.T, c core.Cfg) {
 					var bp []string
 					if base != nil && v.Class == "schedule-dependent" {
 						bp = base.Picks
+					}
+					if waves {
+						// parallel execution is not replayable; the observation stands on its own
+						p := writeReplay(c, found{v: v, w: w, o: o}, faulty, gseed)
+						part.Violations = append(part.Violations, core.ViolationRec{Class: v.Class, Sig: v.Sig,
+							Detail: v.Detail + " [seen in a parallel wave run; replay by re-running the check with the same VERIF_SEED]", Replay: p, Seed: gseed})
+						continue
 					}
 					// reproduce twice from the recorded trace before believing it
 					ok1, _, _, _, d1 := reproduce(t, w, o.Picks, bp, v.Class, faulty, false)
@@ -407,6 +424,7 @@ func worker(t *testing.T, c core.Cfg) {
 			part.Digests[fmt.Sprint(g)] = core.HashStrings(digest...)
 		}
 	}
+	finished = true
 	finishWorker(c, part, distinct, inter, start)
 }
 
@@ -633,9 +651,45 @@ func TestEngine(t *testing.T) {
 	if os.Getenv("VERIF_GOMAXPROCS_ROT") != "" { // determinism self-test: another assignment of GOMAXPROCS to workers
 		gmp = []int{16, 1, 4, 2}
 	}
-	parts := core.SpawnWorkers(c, c.Workers, nil, func(i int) int { return gmp[i%len(gmp)] })
+	// a few workers run the -race build with everything parked released at once (waves)
+	nrace := 0
+	var rparts []*core.Partial
+	rdone := make(chan struct{})
+	if rb := os.Getenv("VERIF_BIN_RACE"); rb != "" && os.Getenv("VERIF_DIGESTS") == "" {
+		nrace = 3
+		rc := c
+		rc.Mode, rc.Bin = "race", rb
+		go func() {
+			rparts = core.SpawnWorkers(rc, nrace, func(i int) []string {
+				return []string{fmt.Sprintf("GORACE=halt_on_error=0 log_path=%s/race-%d", c.OutDir, i)}
+			}, func(i int) int { return []int{4, 16, 8}[i%3] })
+			close(rdone)
+		}()
+	} else {
+		close(rdone)
+	}
+	parts := core.SpawnWorkers(c, c.Workers-nrace, nil, func(i int) int { return gmp[i%len(gmp)] })
+	<-rdone
 	core.DumpDigests(parts)
+	parts = append(parts, rparts...)
 	m := core.Merge(parts)
+	races := 0
+	if logs, _ := filepath.Glob(filepath.Join(c.OutDir, "race-*")); len(logs) > 0 {
+		for _, lf := range logs {
+			b, err := os.ReadFile(lf)
+			if err != nil || !strings.Contains(string(b), "WARNING: DATA RACE") {
+				continue
+			}
+			n := strings.Count(string(b), "WARNING: DATA RACE")
+			if races == 0 {
+				p := filepath.Join(core.ReplayDir(), fmt.Sprintf("%s-race-report-%d.txt", c.Property, c.Seed))
+				_ = os.WriteFile(p, b, 0o644)
+				m.Violations = append(m.Violations, core.ViolationRec{Class: "data-race", Replay: p,
+					Detail: fmt.Sprintf("%d race report(s) while the retrievals of a level ran in parallel; first: %s", n, core.OneLine(core.Trunc(string(b), 900)))})
+			}
+			races += n
+		}
+	}
 	level := "exploration"
 	rule := "one evaluation = one execution of the real parse.Parser.Parse on a generated import graph under one seeded schedule; " +
 		"a run is non-trivial if at some step >= 2 events (claims, opens, retrievals, conversions) were parked so the scheduler had a choice; " +
@@ -645,11 +699,13 @@ func TestEngine(t *testing.T) {
 		rule += "; every C06 graph carries 1-3 injected faults (read errors, retriever errors, garbage, truncation, flips)"
 	}
 	extra := map[string]interface{}{
-		"simulated_time":   "logical scheduler steps only (the anchored code has no clock)",
-		"components_real":  []string{"parse.Parser.Parse incl. collectSpecs/parseSpecs/flattenSpecs", "ANTLR lexer+parser", "golden-retriever remotefs+filesystem", "importers", "pbutil encoders"},
-		"components_stub":  []string{"disk (SimFs)", "git retriever (simRetriever)", "logrus exit function"},
-		"worker_processes": c.Workers,
-		"gomaxprocs":       []int{1, 4, 16},
+		"simulated_time":    "logical scheduler steps only (the anchored code has no clock)",
+		"components_real":   []string{"parse.Parser.Parse incl. collectSpecs/parseSpecs/flattenSpecs", "ANTLR lexer+parser", "golden-retriever remotefs+filesystem", "importers", "pbutil encoders"},
+		"components_stub":   []string{"disk (SimFs)", "git retriever (simRetriever)", "logrus exit function"},
+		"worker_processes":  c.Workers,
+		"gomaxprocs":        []int{1, 4, 16},
+		"race_wave_workers": nrace,
+		"race_reports":      races,
 	}
 	code := core.Finish(c, level, m, rule, extra, []string{
 		"between two scheduler picks exactly one goroutine of the compile runs (cooperative scheduling at claim/open/retrieve/convert seams)",
